@@ -137,6 +137,8 @@ class Normalizer:
                 if callee:
                     if any(callee.endswith(x) or x in callee for x in TRANSPARENT_CALLS) and len(args) == 1:
                         return self.form(args[0])
+                    if callee.endswith("Result::map_err") or callee.endswith("Option::ok_or_else") or callee.endswith("Option::ok_or"):
+                        return self.form(args[0])
                     for pat, fa in FUNC_ATOMS.items():
                         if callee.endswith(pat):
                             return atom("%s(%s)" % (fa, ", ".join(show(self.form(a)) for a in args)))
